@@ -286,12 +286,14 @@ Definition defined_op (o : op) (args : list Z) : bool :=
   | (OFma | OCmp), [_; _; _] => true
   | (OParse | OFromStr | OFromStr2 | OSum | OProduct | OSerdeDe | ONanTag), _ => true
   | (OConsts | OMacro), [] => true
+  | OHashSliceEq, n :: l => hashslice_shape n l        (* 0 <= n and 2n patterns follow *)
   | _, _ => false
   end.
 
 (* the argument shapes the harness produces: operand patterns are 128-bit words, the comparison predicate index is one of
    the twenty, string arguments are byte lists; integer arguments (scaleb's n, from_int's and from_bin's source word, the
-   tag characters of d128::nan) are arbitrary; the constants and the macro samples take no argument *)
+   tag characters of d128::nan) are arbitrary; the constants and the macro samples take no argument; hash_slice takes the
+   slice length n followed by 2n operand patterns ([defined_op] checks the count) *)
 Definition pat (x : Z) : bool := (0 <=? x) && (x <? P128).
 Definition byte (b : Z) : bool := (0 <=? b) && (b <? 256).
 Definition args_ok (o : op) (args : list Z) : bool :=
@@ -300,14 +302,14 @@ Definition args_ok (o : op) (args : list Z) : bool :=
   | (OFromInt _ _ | OFromBin _ _ _ | ONanTag), _ => true
   | OCmp, [x; y; i] => pat x && pat y && (0 <=? i) && (i <? 20)
   | (OParse | OFromStr | OFromStr2 | OSerdeDe), l => forallb byte l
+  | OHashSliceEq, _ :: l => forallb pat l
   | _, l => forallb pat l
   end.
 Definition shape_ok (o : op) (args : list Z) : bool := defined_op o args && args_ok o args.
 
-(* the two places where the specification leaves the returned values entirely open (DESIGN 10/C09, 10/C11, section 14:
-   frexp of a zero, an infinity or a NaN; quantum of a NaN); there the expectation is [Pred any_out [0]], which also accepts an empty
-   output list, so for these the judge alone does not demand a returned value (the driver reports a panic before
-   the judge is consulted, see the header of props/C15.v) *)
+(* the two places where the specification leaves the returned VALUES entirely open (DESIGN 10/C09, 10/C11, section 14:
+   frexp of a zero, an infinity or a NaN; quantum of a NaN); there the expectation is [Pred any_out [0]]: any non-empty
+   output list, no flag. (An empty output list - "no answer" - is rejected there as everywhere else.) *)
 Definition unconstrained (o : op) (args : list Z) : bool :=
   match o, args with
   | OFrexp, [x] => match decode x with Fin _ c _ => c =? 0 | _ => true end
@@ -342,6 +344,14 @@ Lemma good_hasheq md x y : good_expect (expected OHashEq md [x; y]).
 Proof.
   cbv beta iota delta [expected]. apply (good_pred _ _ [1]); [|reflexivity].
   unfold m_hasheq. destruct (m_eq (decode x) (decode y)); reflexivity.
+Qed.
+
+Lemma hashslice_witness n l : m_hashslice n l 1 = true.
+Proof. unfold m_hashslice. destruct (slices_eq _ _); reflexivity. Qed.
+
+Lemma good_hashslice md n l : hashslice_shape n l = true -> good_expect (expected OHashSliceEq md (n :: l)).
+Proof.
+  intro H. cbv beta iota delta [expected]. rewrite H. apply (good_pred _ _ [1]); [apply hashslice_witness|reflexivity].
 Qed.
 
 Lemma good_parse md l : good_expect (expected OParse md l).
@@ -461,46 +471,41 @@ Proof. cbv beta iota delta [expected]. apply (good_exact 17); [lia|leaf]. Qed.
 Lemma good_macro md : good_expect (expected OMacro md []).
 Proof. cbv beta iota delta [expected]. apply (good_exact 3); [lia|leaf]. Qed.
 
-(* what is proved about one (operation, mode, arguments) triple *)
-Definition spec_ok (o : op) (md : rmode) (args : list Z) : Prop :=
-  satisfiable (expected o md args) /\
-  (if unconstrained o args then expected o md args = Pred any_out [0] else never_empty (expected o md args)).
+(* what is proved about one (operation, mode, arguments) triple: something is accepted outright, and nothing without a
+   returned value is accepted *)
+Definition spec_ok (o : op) (md : rmode) (args : list Z) : Prop := good_expect (expected o md args).
 
-Lemma any_out_satisfiable : satisfiable (Pred any_out [0]).
-Proof. exists [0], 0. reflexivity. Qed.
+Lemma good_any_out : good_expect (Pred any_out [0]).
+Proof. apply (good_pred _ _ [0]); reflexivity. Qed.
 
 Lemma frexp_ok md x : spec_ok OFrexp md [x].
 Proof.
-  unfold spec_ok. cbv beta iota delta [expected unconstrained m_frexp of_kind].
+  unfold spec_ok. cbv beta iota delta [expected m_frexp of_kind].
   destruct (decode x) as [s c q|s|s sg p]; [destruct (c =? 0)|..]; cbv beta iota;
-  try (split; [exact any_out_satisfiable|reflexivity]).
+  try exact good_any_out.
   apply (good_exact 2); [lia|]. apply goodn_lit; [discriminate|repeat constructor].
 Qed.
 
 Lemma quantum_ok md x : spec_ok OQuantum md [x].
 Proof.
-  unfold spec_ok. cbv beta iota delta [expected unconstrained m_quantum of_kind is_nan].
+  unfold spec_ok. cbv beta iota delta [expected m_quantum of_kind].
   destruct (decode x) as [s c q|s|s sg p]; cbv beta iota;
-  try (split; [exact any_out_satisfiable|reflexivity]);
+  try exact good_any_out;
   (apply (good_exact 1); [lia|apply goodn_out1]).
 Qed.
 
-Lemma spec_ok_of_good o md args : unconstrained o args = false -> good_expect (expected o md args) -> spec_ok o md args.
-Proof. intros U [H1 H2]. unfold spec_ok. rewrite U. split; assumption. Qed.
-
 Theorem spec_main o md args : defined_op o args = true -> spec_ok o md args.
 Proof.
-  intro H.
+  intro H. unfold spec_ok.
   destruct o;
   first
-  [ apply spec_ok_of_good; [reflexivity|];
-    first [ apply good_parse | apply good_fromstr | apply good_fromstr2 | apply good_sum | apply good_product
-          | apply good_serde_de | apply good_nantag ]
+  [ first [ apply good_parse | apply good_fromstr | apply good_fromstr2 | apply good_sum | apply good_product
+          | apply good_serde_de | apply good_nantag
+          | destruct args as [|n l]; [discriminate H|]; apply good_hashslice; exact H ]
   | destruct args as [|a1 [|a2 [|a3 [|a4 rest]]]]; cbv beta iota delta [defined_op] in H; try discriminate H;
     first
     [ apply frexp_ok | apply quantum_ok
-    | apply spec_ok_of_good; [reflexivity|];
-      first [ apply good_modf | apply good_from_bin | apply good_hasheq | apply good_oparith; exact H | apply good_opneg
+    | first [ apply good_modf | apply good_from_bin | apply good_hasheq | apply good_oparith; exact H | apply good_opneg
             | apply good_serde | apply good_consts | apply good_macro
             | cbv beta iota delta [expected];
               first [ apply (good_exact 1); [lia|solve [auto with gn]]
@@ -527,6 +532,8 @@ Proof. intro H. apply satisfiable_judge, spec_total, H. Qed.
 Theorem undefined_is_empty o md args : defined_op o args = false -> expected o md args = Exact [].
 Proof.
   intro H. destruct o; try (destruct o);
+  try (destruct args as [|n l]; [reflexivity|]; cbv beta iota delta [defined_op] in H; cbv beta iota delta [expected];
+       rewrite H; reflexivity);
   destruct args as [|a1 [|a2 [|a3 [|a4 rest]]]]; cbv beta iota delta [defined_op arith_op] in H; try discriminate H; reflexivity.
 Qed.
 
@@ -536,32 +543,41 @@ Proof.
   rewrite (undefined_is_empty o md args E) in S. exfalso. exact (exact_satisfiable_inv [] S eq_refl).
 Qed.
 
-(* "no answer" is never conforming: whatever is accepted, outright or as a recorded known finding, returns a value *)
-Theorem no_answer_rejected o md args : defined_op o args = true -> unconstrained o args = false ->
+(* "no answer" is never conforming: whatever is accepted, outright or as a recorded known finding, returns a value.
+   No side condition: this holds for every operation and every argument list on which [expected] is defined. *)
+Theorem no_answer_rejected o md args : defined_op o args = true ->
   forall outs fl, acc (expected o md args) outs fl <> 0 -> outs <> [].
-Proof. intros H U. pose proof (proj2 (spec_main o md args H)) as N. rewrite U in N. exact N. Qed.
+Proof. intros H. exact (proj2 (spec_main o md args H)). Qed.
 
-Theorem no_answer_rejected_judge o md args : defined_op o args = true -> unconstrained o args = false ->
+Theorem no_answer_rejected_judge o md args : defined_op o args = true ->
   forall fin fout, judge (expected o md args) fin [] fout = 0.
-Proof. intros H U. apply never_empty_judge. exact (no_answer_rejected o md args H U). Qed.
+Proof. intros H. apply never_empty_judge. exact (no_answer_rejected o md args H). Qed.
+
+(* ... and outside the domain nothing at all is accepted, so the empty answer is rejected for EVERY (o, md, args) *)
+Theorem no_answer_rejected_anywhere o md args fin fout : judge (expected o md args) fin [] fout = 0.
+Proof.
+  destruct (defined_op o args) eqn:D; [apply no_answer_rejected_judge, D|].
+  rewrite (undefined_is_empty o md args D). reflexivity.
+Qed.
 
 (* for list expectations: the list is non-empty and each of its outcomes carries at least one value *)
 Theorem exact_outcomes_have_values o md args l : defined_op o args = true -> expected o md args = Exact l ->
   l <> [] /\ forall oc, In oc l -> fst oc <> [].
 Proof.
   intros H E. pose proof (spec_main o md args H) as [S N]. rewrite E in S, N. split; [apply exact_satisfiable_inv, S|].
-  destruct (unconstrained o args); [discriminate N|]. intros oc Hin. apply (N (fst oc) (snd oc)).
+  intros oc Hin. apply (N (fst oc) (snd oc)).
   assert (X : acc (Exact l) (fst oc) (snd oc) = 1).
   { cbn [acc]. apply b2z_1, existsb_exists. exists oc. split; [exact Hin|]. rewrite list_eqb_refl, Z.eqb_refl. reflexivity. }
   rewrite X. discriminate.
 Qed.
 
-(* the two exceptions, exactly: there the model places no requirement on the returned values at all *)
+(* where the model places no requirement on the returned VALUES (only: some value is returned, no flag is raised) *)
 Theorem unconstrained_spec o md args : unconstrained o args = true -> expected o md args = Pred any_out [0].
 Proof.
-  intro U. assert (D : defined_op o args = true).
-  { destruct o; try discriminate U; destruct args as [|a1 [|a2 r]]; try discriminate U; reflexivity. }
-  pose proof (proj2 (spec_main o md args D)) as N. rewrite U in N. exact N.
+  intro U. destruct o; try discriminate U; destruct args as [|x [|a2 r]]; try discriminate U;
+  cbv beta iota delta [expected unconstrained m_frexp m_quantum of_kind is_nan] in U |- *;
+  destruct (decode x) as [s c q|s|s sg p]; try discriminate U; try reflexivity.
+  rewrite U. reflexivity.
 Qed.
 Theorem unconstrained_cases o args : unconstrained o args = true <->
   exists x, args = [x] /\ ((o = OFrexp /\ forall s c q, decode x = Fin s c q -> c = 0) \/ (o = OQuantum /\ is_nan (decode x) = true)).
@@ -573,8 +589,16 @@ Proof.
   - intros [x [-> [[-> H]|[-> H]]]]; cbn [unconstrained]; [|exact H].
     destruct (decode x) as [s c q|s|s sg p]; [|reflexivity..]. apply Z.eqb_eq. exact (H s c q eq_refl).
 Qed.
-Theorem unconstrained_accepts_empty o md args : unconstrained o args = true -> acc (expected o md args) [] 0 = 1.
-Proof. intro U. rewrite (unconstrained_spec o md args U). reflexivity. Qed.
+(* there: accepted iff at least one value is returned and no flag is raised *)
+Theorem unconstrained_accepts o md args outs fl : unconstrained o args = true ->
+  (acc (expected o md args) outs fl = 1 <-> outs <> [] /\ fl = 0).
+Proof.
+  intro U. rewrite (unconstrained_spec o md args U). cbn [acc any_out existsb]. rewrite orb_false_r.
+  destruct outs as [|v r]; cbn [is_nil negb andb].
+  - split; [discriminate|intros [H _]; congruence].
+  - destruct (Z.eqb_spec 0 fl) as [E|E]; cbn [b2z]; split; try discriminate; try (intros [_ H]; congruence); intros _;
+    split; [discriminate|symmetry; exact E].
+Qed.
 
 (* ---------- where the specification fixes the answer, it fixes exactly one ---------- *)
 Definition single (l : list outcome) : Prop := exists oc, l = [oc].
@@ -679,7 +703,11 @@ Theorem spec_deterministic_where_stated o md args l :
 Proof.
   intros Hd H Hn E. destruct o; try discriminate Hd;
   first
-  [ (* string operations *)
+  [ (* hash_slice: a predicate expectation *)
+    match type of E with expected OHashSliceEq _ _ = _ =>
+      destruct args as [|n r]; [discriminate H|]; cbv beta iota delta [defined_op] in H;
+      cbv beta iota delta [expected] in E; rewrite H in E; discriminate E end
+  | (* string operations *)
     cbv beta iota zeta delta [expected] in E;
     match type of E with context [m_parse ?m ?s] =>
       pose proof (single_parse m s) as S; destruct (m_parse m s); try discriminate E; apply exact_inj in E; subst l;
